@@ -21,6 +21,7 @@ inductive PyErr where
   | parseError (code : Str)
   | unicodeEncode (site : String)
   | lookupError (site : String)
+  | attributeError (site : String)
   deriving Repr, DecidableEq, BEq
 
 def PyErr.tag : PyErr → String
@@ -34,6 +35,7 @@ def PyErr.tag : PyErr → String
   | .parseError _ => "ParseError"
   | .unicodeEncode s => "UnicodeEncodeError:" ++ s
   | .lookupError s => "LookupError:" ++ s
+  | .attributeError s => "AttributeError:" ++ s
 
 /-- A namespaced attribute as tree walkers emit it: key `(namespace, name)` and value. -/
 structure Attr where
